@@ -18,6 +18,8 @@ from pv.harness import Cov, digest, viol
 from pv.models import reward_ref
 
 CLIENTS = ["c1", "c2", "c3", "c4"]
+# pages with different answers in the same state: database-backed (200 / 404 on a failed query / 500 without a connection), static (200), absent (404)
+URLS = ["http://arcd.com/users/", "http://arcd.com/", "http://arcd.com/missing/", "http://arcd.com/users/"]
 
 
 def webnet():
@@ -32,7 +34,7 @@ def webnet():
     n.to_switch("sw1", "db")
     for i, c in enumerate(CLIENTS):
         n.host(c, f"192.168.1.{21 + i}", dns_server="192.168.1.12", start_up_duration=0, shut_down_duration=0,
-               applications=[{"type": "web-browser", "options": {"target_url": "http://arcd.com/users/"}},
+               applications=[{"type": "web-browser", "options": {"target_url": URLS[i % len(URLS)]}},
                              {"type": "database-client", "options": {"db_server_ip": "192.168.1.14"}}])
         n.to_switch("sw1", c)
     return n
@@ -161,6 +163,12 @@ def check_step(mon, game, ref, cov, label):
             rc = ref.comps[name][i]
             cell = f"{rc.ctype}|sticky={rc.opts.get('sticky')}|{'nonzero' if cvals[i] else 'zero'}"
             cov.hit("component_cells", cell)
+            z = getattr(rc, "zero_average_over_memory", 0)
+            if z > getattr(rc, "_z_reported", 0):
+                cov.inc("web404_zero_average_steps_over_nonzero_memory", z - getattr(rc, "_z_reported", 0))
+                rc._z_reported = z
+            for cs_ in getattr(rc, "seen_code_sets", ()):
+                cov.hit("web404_code_sets", "+".join(map(str, cs_)))
             if got_c[i] is None or not reward_ref.close(float(got_c[i]), float(cvals[i])):
                 mon.v(f"component-value/{rc.ctype}/sticky={rc.opts.get('sticky')}",
                       f"{label}: agent {name} component {rc.ctype} {rc.opts}: real {got_c[i]} expected {cvals[i]} "
@@ -404,7 +412,7 @@ class Check:
         "reference semantics from docs/source/rewards.rst + component docstrings; 'same step' = value the other agent's reward function computed in this tick",
         "permutation cases use agents acting on disjoint client nodes so that their actions commute in the simulator",
     ]
-    min_monitor = {"agent_step_compares": 500, "shared_reads": 100, "graphs": 60000, "permutations_compared": 10}
+    min_monitor = {"agent_step_compares": 500, "shared_reads": 100, "graphs": 60000, "permutations_compared": 10, "web404_zero_average_steps_over_nonzero_memory": 4}
     case_timeout = {"quick": 1200, "thorough": 3600}
 
     def cases(self, tier, seed):
